@@ -190,7 +190,7 @@ def judge_string(case, res):
     # (the line terminator - LF or CR LF - is not part of the text: "til end of line")
     src = ('start:' + eol if with_label else '') + indent + 'string ' + raw + eol + ('end_:' + eol if with_label else '')
     if eol != '\n':
-        res.count('string_crlf')
+        res.count('string_crlf' if eol == '\r\n' else 'string_cr_only')
     exp = ir.unescape(raw).encode('utf-8')
     labels = {}
     try:
@@ -216,12 +216,12 @@ def judge_string(case, res):
         res.nt(env.chash(raw))
         res.count('string_nonascii' if any(ord(c) > 127 for c in raw) else 'string_escape')
     if (any(ord(c) > 127 for c in raw) or '\\' in raw) and len(raw) > 4 and res.evaluations % 20 == 0:
-        res.sample({'string': raw, 'bytes': exp.hex(), 'line ending': 'CR LF' if eol != '\n' else 'LF'})
+        res.sample({'string': raw, 'bytes': exp.hex(), 'line ending': {'\n': 'LF', '\r\n': 'CR LF', '\r': 'CR'}[eol]})
 
 
 def string_job(n, shard):
     res = env.Result()
-    strat = st.tuples(string_raw(), st.sampled_from(['', '  ', '\t']), st.booleans(), st.sampled_from(['\n', '\n', '\r\n']))
+    strat = st.tuples(string_raw(), st.sampled_from(['', '  ', '\t']), st.booleans(), st.sampled_from(['\n', '\n', '\r\n', '\r']))
     env.run_hypothesis(judge_string, strat, n, env.derive(env.seed_value(), PROP, 'str', shard), res, env.load_known(), PROP, shrink=True)
     return res
 
